@@ -132,6 +132,7 @@ struct Member
     // real objects
     UnitsPtr u;
     ModelPtr model, libModel;
+    bool realised = false;
 };
 
 std::string attrStr(const Attr &a)
@@ -264,6 +265,9 @@ bool importsBaseByName(const Def &d, const Member &m)
 }
 void realise(Member &m, Ctx *ctx = nullptr)
 {
+    if (m.realised) return;
+    m.realised = true;
+    if (!g_importer) g_importer = Importer::create();
     if (m.stdObject) { m.u = Units::create(m.root); return; }
     if (m.parentless) { m.u = makeUnits(m.main.at(0), nullptr); return; }
     m.model = Model::create("m");
@@ -640,7 +644,6 @@ void realiseAll()
 {
     if (g_realised) return;
     g_realised = true;
-    g_importer = Importer::create();
     for (auto &m : g_pool) realise(m);
     for (auto &m : g_special) realise(m);
 }
@@ -828,11 +831,14 @@ void specialDecode(uint64_t idx, size_t &s, const std::vector<int> *&list, size_
 }
 void runSpecial(uint64_t idx, Ctx &c)
 {
-    realiseAll();
+    // only the objects this case touches are built (a crash restarts the process: keep the restart cheap)
     size_t s, x;
     const std::vector<int> *listp;
     specialDecode(idx, s, listp, x);
     const std::vector<int> &list = *listp;
+    if (s < g_special.size()) realise(g_special[s]);
+    if (x < list.size()) realise(g_pool[list[x]]);
+    for (size_t t = 0; t < g_nbasic; ++t) realise(g_special[t]);
     UnitsPtr su = s < g_special.size() ? g_special[s].u : nullptr;
     std::string sk = s < g_special.size() ? g_special[s].kind : "null";
     std::string sg = s < g_special.size() && !g_special[s].trait.empty() ? g_special[s].trait : sk; // signature class
@@ -869,7 +875,9 @@ void runSpecial(uint64_t idx, Ctx &c)
 // compatibility check. The partner's identity cannot matter, so partners are: three defined members, every special, null.
 void runUnchecked(uint64_t idx, Ctx &c)
 {
-    realiseAll();
+    for (size_t t = 0; t < g_nbasic; ++t) realise(g_special[t]);
+    for (size_t pk : {size_t(0), g_sub.size() / 2, g_sub.size() - 1}) realise(g_pool[g_sub[pk]]);
+    if (idx / (3 + g_nbasic + 1) < g_special.size()) realise(g_special[idx / (3 + g_nbasic + 1)]);
     size_t nx = 3 + g_nbasic + 1; // partners: three defined members, the hand-listed undefined arguments, null
     size_t s = idx / nx, x = idx % nx;
     UnitsPtr su = s < g_special.size() ? g_special[s].u : nullptr;
